@@ -181,6 +181,8 @@ pub struct ExecCtx {
     pub runs_done: AtomicU64,
     pub events_seen: AtomicU64,
     pub run_ns: AtomicU64,
+    /// slowest single run (ms)
+    pub max_run_ms: AtomicU64,
     /// set after a run hit the wall-clock cap: exploration stops early
     pub abort: std::sync::atomic::AtomicBool,
     /// a timed-out scenario is being repeated: runs get 4x the cap
@@ -371,6 +373,7 @@ pub fn exec_scenario(ctx: &ExecCtx, wd: &Workdir, scn: &Scenario, built: &Built)
         ctx.runs_done.fetch_add(1, Ordering::Relaxed);
         ctx.events_seen.fetch_add(trace.len() as u64, Ordering::Relaxed);
         ctx.run_ns.fetch_add(wall.as_nanos() as u64, Ordering::Relaxed);
+        ctx.max_run_ms.fetch_max(wall.as_millis() as u64, Ordering::Relaxed);
         let (dd_after, ix_after) = if immut {
             (Some(data_digest(&data)?), Some(dump_index(&data.join("index"), &wd.root.join("ixcopy"))?))
         } else {
